@@ -1,6 +1,7 @@
 """Per-property case generation and oracles (the property predicate evaluated
 directly on the implementation), on top of the model/implementation
 correspondence done by Run."""
+import os
 import lzma as pylzma
 import zlib
 
@@ -88,6 +89,27 @@ def reader_kind(rng, n, hot=()):
         cuts = sorted(set(min(max(1, h + rng.below(3) - 1), n) for h in hs))
         return "cut:" + ",".join(map(str, cuts))
     return "cut:" + ",".join(str(x) for x in sorted(set(rng.below(n) + 1 for _ in range(rng.below(4) + 1))))
+
+
+def seam_program(rng, dict_size, laps=1, rounds=120, alphabet=4):
+    """a program for the script encoder: fill the window `laps` times, then `rounds` times a few literals, a
+    copy whose distance equals the window cursor after the copy (the byte a following literal is matched
+    against sits in slot 0 of the circular window), and one literal"""
+    toks = ["X%d.%d.%d" % (dict_size * laps, rng.below(999), alphabet)]
+    total = dict_size * laps
+    for _ in range(rounds):
+        k = rng.pick([1, 2, 3, 5])
+        toks.append("X%d.%d.%d" % (k, rng.below(999), alphabet))
+        total += k
+        ln = rng.pick([2, 3, 5, 9])
+        dist = (total % dict_size) + ln
+        if dist > dict_size or dist < 1:
+            continue
+        toks.append("M%d.%d" % (dist, ln))
+        total += ln
+        toks.append("L%d" % rng.pick([11, 48, 85, 122]))
+        total += 1
+    return ",".join(toks)
 
 
 def lzma_file(m, dict_field=None, size="auto"):
@@ -221,6 +243,26 @@ def c01(run: Run):
                     oracle=lambda res, meta, peak, out=out: None if res.startswith("new:ok st:") and res.split(" ")[2].startswith("ok:") and
                     res.split(" ")[2].split(":", 2)[2] == out_repr(out) else "raw decoder: expected ok with the format's output, got `%s`" % res[:100],
                     tag="c01:raw", nontrivial=nontriv)
+    # copies that end where the next literal's match byte sits exactly at the seam of the circular window
+    for b in core.script([dict(kind="lzma", lc=rng.pick([3, 0, 4]), lp=rng.pick([0, 1]), pb=2, dict=d_, prog=seam_program(rng, d_, rng.pick([1, 2])) + rng.pick(["", ",E"]))
+                          for d_ in (4096, 4097)]):
+        run.add("lzma us=hdr in=%s" % lzma_file(b).hex(), oracle=exp_ok_out(b["out"]), tag="c01:window-seam")
+    # the end marker is a match with distance 2^32 - 1 of ANY legal length (encoders write the minimum; the
+    # format and liblzma accept all); and the marker still ends the stream when the caller asks to ignore a
+    # (wrong) size field in the header
+    reqs = []
+    for ln in (2, 3, 4, 5, 9, 10, 17, 18, 100, 273):
+        lc, lp, pb = rng.pick([(3, 0, 2), (0, 0, 0), (8, 4, 4), (4, 1, 3)])
+        reqs.append(dict(kind="lzma", lc=lc, lp=lp, pb=pb, dict=4096, prog="X%d.%d.200,M3.4,M4294967296.%d" % (rng.pick([4, 5, 40, 300]), rng.below(999), ln)))
+    for b in core.script(reqs):
+        data = lzma_header(b["lc"], b["lp"], b["pb"], 4096, None) + b["payload"]
+        run.add("lzma us=hdr in=%s" % data.hex(), oracle=exp_ok_out(b["out"]), tag="c01:long-marker")
+        if b["lc"] + b["lp"] <= 4:       # liblzma refuses lc + lp > 4 (the format allows it, lzma-rs decodes it)
+            r = liblzma_alone(data)
+            spec_check(run, "lzma long end marker", r[0] == "ok" and r[1] == b["out"])
+    for m in [x for x in mats if x["eos"] and x["dict"] >= 4096][:sizes(t, 20, 200)]:
+        data = lzma_header(m["lc"], m["lp"], m["pb"], m["dict"], rng.pick([0, 1, len(m["out"]), len(m["out"]) + 9, 2**40])) + m["payload"]
+        run.add("lzma us=hup:none in=%s" % data.hex(), oracle=exp_ok_out(m["out"]), tag="c01:marker-under-ignored-size-field")
     run.extra_cov["streams"] = len(mats)
 
 
@@ -300,6 +342,11 @@ def c02(run: Run):
                 run.count("midstream-chunk>64KiB")
         run.add("lzma2 in=%s" % m["payload"].hex(), oracle=exp_ok_out(m["out"]), tag="c02",
                 nontrivial=len(ch) > 1)
+        if len(m["out"]) < 20000 and sum(1 for c in ch if c["ctrl"] == 1 or c["ctrl"] >= 0xE0) >= 2 and rng.chance(1, 2):
+            # a sink that takes only part of each write must still receive everything (data is handed over at
+            # every dictionary reset and at the end)
+            script = ",".join(rng.pick(["u1", "u3", "u7", "u100"]) for _ in range(40))
+            run.add("lzma2 sink=%s in=%s" % (script, m["payload"].hex()), oracle=exp_ok_out(m["out"]), tag="c02:short-writing-sink")
         if len(m["payload"]) < 20000 and ch:
             # the same stream through a reader that hands it over in pieces (seams inside chunk headers)
             hot = [c["off"] + d for c in ch for d in (1, 2, 3, 4, 5, 6)]
@@ -374,6 +421,10 @@ def c03(run: Run):
         run.add("xz in=%s" % data.hex(), oracle=exp_ok_out(b["out"]), tag="c03:dict-size-edge")
         r = liblzma_xz(data)
         spec_check(run, "xz dict-size edge props=%d" % pbyte, r[0] == "ok" and r[1] == b["out"])
+    # chunk size extremes inside a container (2 MiB uncompressed size: every bit of the size field counts)
+    for b in core.gen_material("lzma2big", 1, 2):
+        blk = core.XzBlock(b["payload"], b["out"], decl_packed=True, decl_unpacked=True)
+        run.add("xz in=%s" % core.build_xz(run.rng.pick([1, 4]), [blk]).hex(), oracle=exp_ok_out(b["out"]), tag="c03:chunk-extreme")
     # the two optional size fields of the block header, in every presence combination
     for i in range(sizes(run.tier, 8, 40)):
         m = run.rng.pick(lz2)
@@ -433,6 +484,11 @@ def c04(run: Run):
     big = [65535, 65536, 65537, 131072] if t == "quick" else [65535, 65536, 65537, 131072, 131073, 196608]
     for n in big:
         inputs.append(bytes((i * 31 + i // 251) & 0xFF for i in range(n)))
+    # inputs that reach the rare carry classes of the range encoder's write_low (found by tools/enc_carry_search.c)
+    for ln in open(os.path.join(core.ROOT, "corpus", "enc_carry.txt")):
+        if ln.strip():
+            inputs.append(bytes.fromhex(ln.split()[1]))
+            run.count("enc-carry:" + ln.split()[0])
     inputs.append(b"\x00" * 70000)
     inputs.append(b"\xff" * 66000)
     pending = []
@@ -454,7 +510,22 @@ def c04(run: Run):
                     pending.append((cid, kind, opt, data))
                     run.count("len:%s" % ("0" if not data else "<64K" if len(data) < 65535 else ">=64K"))
 
+    # a source that itself uses the library while it is being read (a reader that compresses records lazily):
+    # the encoders keep no state outside the call
+    nested = []
+    for data in inputs[:8]:
+        for kind in ("lzma", "lzma2", "xz"):
+            a_ = run.add("enc kind=%s opt=hnone full=1 in=%s" % (kind, data.hex()), oracle=None, tag="c04:enc:plain", nontrivial=False)
+            b_ = run.add("enc kind=%s opt=hnone full=1 nest=1 in=%s" % (kind, data.hex()),
+                         oracle=lambda res, meta, peak: None if v(res) == "ok" else "encoder failed when its source used the library too: %s" % res[:80],
+                         tag="c04:enc:nested-use")
+            nested.append((a_, b_))
+
     def post(run):
+        for a_, b_ in nested:
+            if run.impl[a_] != run.impl[b_]:
+                run.report_violation(b_, run.cases[int(b_)][1], run.cases[int(b_)][2], run.impl[b_],
+                                     "output differs when the source uses the library while being read")
         # decode what the implementation emitted: with lzma-rs, with the model decoder, with liblzma
         second = Run(run.prop, run.tier, run.seed)
         for cid, kind, opt, data in pending:
@@ -465,6 +536,14 @@ def c04(run: Run):
             if kind == "lzma":
                 us = {"hnone": "hdr", "skip": "up:%d" % len(data)}.get(opt, "hdr")
                 second.add("lzma us=%s in=%s" % (us, enc.hex()), oracle=exp_ok_out(data), tag="c04:dec:lzma")
+                if len(enc) < 3000:
+                    # … and by the streaming decoder, the encoding arriving in small pieces
+                    c = run.rng.pick([1, 2, 3, 4, 5, 7, 9])
+                    pieces = [enc[i:i + c] for i in range(0, len(enc), c)]
+                    second.add("stream us=%s ops=%s" % (us, ";".join(["wa:" + x.hex() for x in pieces] + ["fin"])),
+                               oracle=lambda res, meta, peak, data=data: None if stream_verdict(res) == "ok" and outfield(res) == out_repr(data) else
+                               "the streaming decoder does not decode the encoder's output back (pieces of %d bytes): %s" % (meta["c"], res[-80:]),
+                               tag="c04:dec:lzma-stream", c=c)
                 if opt == "skip":
                     full_file = enc[:5] + len(data).to_bytes(8, "little") + enc[5:]
                 else:
@@ -549,7 +628,8 @@ def stream_ops(data, parts, op="wa", st=False):
     """`st=True` interleaves state-digest probes (model vs implementation: staged bytes, range, code,
     carry-over buffer, every probability, state, reps)"""
     sep = ";st;" if st else ";"
-    return sep.join("%s:%s" % (op, c.hex()) for c in split_by(data, parts)) + (";st" if st else "") + ";fin"
+    # an empty piece is a real `write(&[])` call (a feeding loop would not issue it)
+    return sep.join("%s:%s" % (op if c else "w", c.hex()) for c in split_by(data, parts)) + (";st" if st else "") + ";fin"
 
 
 def stream_verdict(res):
@@ -621,6 +701,13 @@ def c05(run: Run):
             # cut exactly at the end of the valid stream: what follows arrives in later writes
             b = int(kind.split("@")[1])
             chs = chs[:3] + [[b, len(data) - b], [b, 1, len(data) - b - 1], [b - 1, 1, len(data) - b]]
+        if kind in ("valid", "valid-sized") and rng.chance(1, 3):
+            # under a memory limit both decoders must agree too (the window the limit is measured against is the same)
+            ml = rng.pick([0, 1, 100, 4095, 4096, 5000, 2**40])
+            r2 = run.add("lzma us=%s ml=%d in=%s" % (us, ml, data.hex()), oracle=no_crash, tag="c05:oneshot:memlimit")
+            k2 = [run.add("stream us=%s ml=%d ops=%s" % (us, ml, stream_ops(data, parts)), oracle=None, tag="c05:stream:memlimit")
+                  for parts in chunkings(rng, len(data), 3)]
+            groups.append((r2, k2, data, kind))
         for parts in chs:
             ks.append(run.add("stream us=%s ops=%s" % (us, stream_ops(data, parts, st=(len(parts) <= 12 and len(data) > 0 and data[0] < 225 and data[0] % 9 + (data[0] // 9) % 5 <= 3))), oracle=None,
                               tag="c05:stream:" + kind, nontrivial=len(parts) > 1))
@@ -649,6 +736,7 @@ def c15(run: Run):
     mats = mats[:sizes(run.tier, 12, 100)]
     mats += core.script([dict(kind="lzma", lc=3, lp=0, pb=2, dict=4096, prog="X%d.%d.4,M%d.9,L65,M%d.3%s" % (
         4200, rng.below(1000), rng.pick([4096, 4095, 3000]), rng.pick([4096, 2049]), rng.pick(["", ",E"])))])
+    mats += core.script([dict(kind="lzma", lc=3, lp=0, pb=2, dict=4096, prog=seam_program(rng, 4096, 1, 60) + rng.pick(["", ",E"]))])
     # outputs several times larger than the dictionary (laps of the window, copies ending on lap boundaries)
     mats += [m for m in core.gen_material("lzmawrap", run.seed + 15, sizes(run.tier, 3, 20)) if len(m["out"]) > m["dict"]]
     groups = []
@@ -753,19 +841,32 @@ def c16(run: Run):
         parts = split_by(bad, chunkings(rng, len(bad), 3)[-1])
         extra = [rng.bytes(rng.pick([0, 1, 30])) for _ in range(3)]
         # `wx` is the trait's own write_all: after a failure it must not report its (non-empty) buffer as written
-        ops = ";".join(["w:" + c.hex() for c in parts] + ["f"] + ["w:" + e.hex() for e in extra] +
-                       ["f", "wx:" + rng.bytes(rng.pick([1, 7, 40])).hex(), "w:" + good.hex(), "wx:" + good.hex(), "fin"])
+        ops = ";".join(["go"] + ["w:" + c.hex() for c in parts] + ["go", "f"] + ["w:" + e.hex() for e in extra] +
+                       ["f", "wx:" + rng.bytes(rng.pick([1, 7, 40])).hex(), "go", "w:" + good.hex(), "wx:" + good.hex(), "fin"])
         run.add("stream us=hdr ops=%s" % ops, oracle=latch_oracle, tag="c16:corrupt")
         # sink failure mid-stream latches too
         run.add("stream us=hdr sink=f ops=%s" % ";".join(["wa:" + good.hex(), "w:" + good.hex(), "f", "w:00", "wx:00", "fin"]),
                 oracle=latch_oracle, tag="c16:sinkfault")
         # (b) size reached: further writes consume nothing
         sized = lzma_file(m, size=L)
-        ops = ";".join(["wa:" + sized.hex()] + ["w:" + e.hex() for e in extra] + ["wx:" + rng.bytes(rng.pick([1, 9])).hex(), "w:" + good.hex(), "f", "fin"])
+        ops = ";".join(["wa:" + sized.hex()] + ["w:" + e.hex() for e in extra] + ["wx:" + rng.bytes(rng.pick([1, 9])).hex(), "go", "w:" + good.hex(), "f", "fin"])
         run.add("stream us=hdr ops=%s" % ops, oracle=size_latch_oracle(m["out"]), tag="c16:size-reached")
         # over-long input in one go
         run.add("stream us=hdr ops=%s" % ";".join(["wa:" + (sized + rng.bytes(50)).hex(), "w:aa", "wx:bb", "fin"]),
                 oracle=size_latch_oracle(m["out"]), tag="c16:overlong")
+        # (a1) a marker-terminated stream consumed completely by one write, then more writes: no call panics,
+        # and whatever the first extra write does, the stream does not deliver more bytes afterwards
+        if m["eos"]:
+            def after_marker(res, meta, peak, n=L):
+                toks = [t for t in res.split(" ") if "=" not in t]
+                if any("panic" in t for t in toks) or v(res) in ("hang", "abort", "missing"):
+                    return "panic/hang in a call sequence after the end marker"
+                lens = [int(t.split("@")[1]) for t in toks if "@" in t and t.split("@")[1].isdigit()]
+                if lens and max(lens) > n:
+                    return "bytes delivered to the sink after the end marker"
+                return latch_oracle(res, meta, peak)
+            run.add("stream us=hdr ops=%s" % ";".join(["wa:" + good.hex(), "w:" + rng.bytes(rng.pick([1, 2, 25])).hex(), "w:" + good.hex(), "wx:00", "f", "fin"]),
+                    oracle=after_marker, tag="c16:after-marker")
         # (a2) a header announcing a dictionary below 4 KiB (0 included) is a valid header: no call panics
         if m["dict"] == 4096 and rng.chance(1, 2):
             small = lzma_file(m, dict_field=rng.pick([0, 0, 1, 2048, 4095]))
@@ -842,6 +943,18 @@ def c16(run: Run):
                         return "panic"
                 return None
             run.add("stream us=hdr ops=%s" % ";".join(ops), oracle=reached_oracle, tag="c16:size-visible", nontrivial=True)
+    # (c2) the sink fails when a full lap of the window is handed over (k-th sink call), once or for good, also
+    # after accepting part of that write: the write fails, and from then on the stream is inert
+    for m in wraps[:sizes(run.tier, 6, 30)]:
+        if len(m["out"]) <= m["dict"]:
+            continue
+        data = lzma_file(m)
+        for k in (0, 1, 2):
+            for tail in ("f", "f,a,a,a,a,a,a,a,a", "u1000,f,a,a,a,a,a,a,a"):
+                script = ",".join(["a"] * k + [tail])
+                parts = split_by(data, chunkings(rng, len(data), 3)[-1])
+                ops = ["wa:" + c.hex() for c in parts] + ["w:" + rng.bytes(5).hex(), "wx:" + rng.bytes(3).hex(), "f", "w:" + data[:50].hex(), "fin"]
+                run.add("stream us=hdr ai=%d sink=%s ops=%s" % (rng.below(2), script, ";".join(ops)), oracle=latch_oracle, tag="c16:sinkfault-at-lap")
     # (d) UseProvided: 5-byte header, fragmented; the payload left in the staging buffer is corrupt
     bads = [b for b in core.gen_material("lzmabad", run.seed + 16, sizes(run.tier, 150, 600)) if b["nsyms"] <= 2 and b["dict"] >= 4096]
     for b in bads[:sizes(run.tier, 25, 120)]:
@@ -867,7 +980,10 @@ def latch_oracle(res, meta, peak):
         return None
     sink_len = toks[failed_at].split("@")[1]
     for t in toks[failed_at + 1:]:
-        if t.startswith("wx"):
+        if t.startswith("go:"):
+            if t != "go:none":
+                return "get_output still hands out the sink after a failed write: %s" % t
+        elif t.startswith("wx"):
             if t != "wxerr@" + sink_len:
                 return "write_all after a failed write did not fail (or delivered bytes): %s" % t
         elif t.startswith("w"):
@@ -891,7 +1007,10 @@ def size_latch_oracle(expected):
             return "feeding a valid sized stream failed: %s" % toks[:1]
         base = toks[0].split("@")[1]
         for t in toks[1:]:
-            if t.startswith("wx"):
+            if t.startswith("go:"):
+                if t == "go:none" or t == "go:inconsistent":
+                    return "get_output does not hand out the sink of a healthy stream: %s" % t
+            elif t.startswith("wx"):
                 if t != "wxerr@" + base:
                     return "write_all after the declared size was reached reported its buffer as written: %s" % t
             elif t.startswith("w") and not t.startswith("w0@" + base):
